@@ -74,6 +74,8 @@ pub enum Ev {
     TxTsAt(usize, String),
     /// the clock's `now()` reading from here on (2^-32 ns units)
     ClockNow(String),
+    /// index into `WorldSys::macros`: a fixed sequence of events explored as one transition
+    Macro(usize),
 }
 
 #[derive(Clone, Debug)]
@@ -407,6 +409,7 @@ impl<'a> Run<'a> {
                         offset_scaled_log_variance: v,
                     });
                 }
+                Ev::Macro(_) => panic!("harness: unexpanded macro event"),
                 ref other => {
                     let (p, bytes, on_event) = me.frame_for(other).expect("harness: frame event");
                     *port_ref = Some(p);
@@ -559,6 +562,14 @@ pub trait Monitor: Sync {
     type St: Default;
     fn pre(&self, _st: &mut Self::St, _run: &mut Run<'_>, _ev: &Ev, _judged: bool) {}
     fn post(&self, st: &mut Self::St, run: &mut Run<'_>, step: &Step, report: Option<&mut Vec<Violation>>);
+    /// part of the oracle's own state that future verdicts depend on (goes into the state key)
+    fn key(&self, _st: &Self::St) -> String {
+        String::new()
+    }
+    /// replace the canonical state text (e.g. to translate sequence ids)
+    fn canon(&self, _run: &Run<'_>, key: String) -> String {
+        key
+    }
 }
 
 /// A world + seed history + alphabet + monitor as an E1 transition system.
@@ -571,20 +582,23 @@ pub struct WorldSys<'m, M: Monitor> {
     /// obedient host: timers fire only when armed, timestamps only when pending
     pub obedient: bool,
     pub monitor: &'m M,
+    /// expansions of `Ev::Macro(i)`
+    pub macros: Vec<Vec<Ev>>,
 }
 
 struct Bridge<'a, M: Monitor> {
     m: &'a M,
     st: M::St,
+    /// steps with index >= judged are under judgement
     judged: usize,
     out: Vec<Violation>,
 }
 impl<M: Monitor> Observer for Bridge<'_, M> {
     fn pre(&mut self, run: &mut Run<'_>, index: usize, ev: &Ev) {
-        self.m.pre(&mut self.st, run, ev, index == self.judged);
+        self.m.pre(&mut self.st, run, ev, index >= self.judged);
     }
     fn post(&mut self, run: &mut Run<'_>, step: &Step) {
-        let judged = step.index == self.judged;
+        let judged = step.index >= self.judged;
         self.m.post(&mut self.st, run, step, if judged { Some(&mut self.out) } else { None });
     }
 }
@@ -593,11 +607,29 @@ impl<M: Monitor> WorldSys<'_, M> {
     pub fn replay_json(&self, hist: &[Ev]) -> serde_json::Value {
         serde_json::json!({"world": self.name, "seed": self.seed, "hist": hist})
     }
+    /// run a history with every step after the seed under judgement (E2 executions)
+    pub fn run_all_judged(&self, hist: &[Ev]) -> Outcome<Ev> {
+        self.run_inner(hist, true)
+    }
     /// run a history and return (violations of its last step, canonical key)
     pub fn run_full(&self, hist: &[Ev]) -> Outcome<Ev> {
+        self.run_inner(hist, false)
+    }
+    fn run_inner(&self, hist: &[Ev], judge_all: bool) -> Outcome<Ev> {
         let mut full = self.seed.clone();
-        full.extend_from_slice(hist);
-        let judged = if hist.is_empty() { usize::MAX } else { full.len() - 1 };
+        let mut judged = usize::MAX;
+        if judge_all {
+            judged = full.len();
+        }
+        for (i, e) in hist.iter().enumerate() {
+            if i + 1 == hist.len() && !judge_all {
+                judged = full.len();
+            }
+            match e {
+                Ev::Macro(m) => full.extend_from_slice(&self.macros[*m]),
+                o => full.push(o.clone()),
+            }
+        }
         let mut b = Bridge { m: self.monitor, st: Default::default(), judged, out: vec![] };
         let (key, observable, next, dead) = self.cfg.exec(&full, &mut b, |run| {
             if run.dead {
@@ -609,8 +641,9 @@ impl<M: Monitor> WorldSys<'_, M> {
                 .filter(|e| !self.obedient || run.enabled_obedient(e))
                 .cloned()
                 .collect();
-            (run.key(), run.observable(), next, false)
+            (self.monitor.canon(run, run.key()), run.observable(), next, false)
         });
+        let key = if dead { key } else { format!("{key}#{}", self.monitor.key(&b.st)) };
         let replay = self.replay_json(hist);
         let mut violations = b.out;
         for v in &mut violations {
@@ -647,7 +680,7 @@ pub fn explore_all<M: Monitor>(rep: &mut Reporter, systems: &[WorldSys<'_, M>], 
     let mut samples = vec![];
     let mut all_closed_or_depth = true;
     for sys in systems {
-        let lim = Limits { max_depth: depth_of(sys), max_seconds: seconds_each, max_states: 30_000_000 };
+        let lim = Limits { max_depth: depth_of(sys), max_seconds: seconds_each, max_states: 4_000_000 };
         let (st, viols): (Stats, _) = explore(sys, &lim);
         total_states += st.states;
         total_trans += st.transitions;
@@ -733,7 +766,12 @@ pub fn replay_world<M: Monitor>(systems: &[WorldSys<'_, M>], replay: &serde_json
         }
     }
     let mut full = sys.seed.clone();
-    full.extend_from_slice(&hist);
+    for e in &hist {
+        match e {
+            Ev::Macro(m) => full.extend_from_slice(&sys.macros[*m]),
+            o => full.push(o.clone()),
+        }
+    }
     sys.cfg.exec(&full, &mut P, |_| ());
     let o = sys.run_full(&hist);
     if o.violations.is_empty() {
